@@ -16,7 +16,7 @@ var allUnary = []peg.Kind{peg.KOpt, peg.KStar, peg.KPlus, peg.KAnd, peg.KNot}
 func init() {
 	register(&Check{
 		ID: "C01", Level: "exploration", QuickSecs: 150, ThoroughSecs: 1500,
-		Rule:        "all grammars S <- v:(body){probe} with body over {'a','b',\"ab\",\"\",[ab],[^a],.} x {?,*,+,&,!} x seq/choice (arity<=3) up to N nodes (quick 5, thorough 6), a second family with i-flag/Unicode terminals, a two-rule family with every Entrypoint, every single label+action decoration of bodies up to 4 nodes, left-recursive grammars generated with -support-left-recursion (direct tower, indirect pairs in both name orders; default options and Memoize(true)), rule graphs (reference graphs over four rules with dead, shared and recursive rules) generated with -optimize-grammar, a case sweep (EVERY rune with a case variant below U+3000 and in the later cased blocks as i-literal, as first rune of a longer i-literal and as i-class, against each member of its case orbit), and a family generated with -optimize-grammar (one leaf rule inlined at two places next to different neighbours, compared on success, prefix and flat value); x all inputs over the family's alphabet up to L; x 4 generation flag sets; each compared with the reference PEG interpreter (success, consumed prefix, exact value shape). Non-trivial = the reference backtracked over consumed input.",
+		Rule:        "all grammars S <- v:(body){probe} with body over {'a','b',\"ab\",\"\",[ab],[^a],.} x {?,*,+,&,!} x seq/choice (arity<=3) up to N nodes (quick 5, thorough 6), a second family with i-flag/Unicode terminals, a two-rule family with every Entrypoint, every single label+action decoration of bodies up to 4 nodes, left-recursive grammars generated with -support-left-recursion (direct tower, indirect pairs in both name orders; default options and Memoize(true)), rule graphs (reference graphs over four rules with dead, shared and recursive rules) generated with -optimize-grammar, a case sweep (EVERY rune with a case variant below U+3000 and in the later cased blocks as i-literal, as first rune of a longer i-literal and as i-class, against each member of its case orbit), and a family generated with -optimize-grammar (one leaf rule inlined at two places next to different neighbours, compared on success, prefix and flat value); x all inputs over the family's alphabet up to L; x 4 generation flag sets; each compared with the reference PEG interpreter (success, consumed prefix, exact value shape). Non-trivial = the reference backtracked over consumed input. Plus the cross family (cross.go: ALL bodies of <= 3 nodes - thorough 4 - over every expression kind of the grammar language, terminals incl. a mixed-case i-class, an action rule R - left-recursive under -support-left-recursion - and a terminal-only rule T with display names; x all 16 combinations of -optimize-parser, -optimize-basic-latin, -optimize-grammar, -support-left-recursion; entry at S and at R; 25 inputs incl. a capital, a two-byte rune, newlines, invalid bytes); every 10th case is followed by a call on the NEXT input with the same option values (must equal that input alone), every other 10th by the same call again.",
 		Assumptions: []string{"runtime loaded through E1 (emitted grammar literal rebuilt in-process into the working tree's static code); bound to the compiler path by the conformance check", "code blocks are scripted probes"},
 		Run:         runC01,
 	})
